@@ -7,9 +7,13 @@ import (
 	"go/types"
 	"sort"
 	"strings"
+	"sync"
 )
 
+var epochMu sync.Mutex
 var epochCounter int
+
+func nextEpoch() int { epochMu.Lock(); defer epochMu.Unlock(); epochCounter++; return epochCounter }
 
 type State struct {
 	epoch int
@@ -52,6 +56,16 @@ func (vc *VC) typedVersion(comp, term string) {
 		return
 	}
 	rf := vc.rangeFact(ci.elemT, elem)
+	// references stored in the entry heap were allocated before the function started
+	if strings.HasSuffix(term, "__e0") {
+		vc.declare("next__e0", "Int")
+		switch ci.elemT.Underlying().(type) {
+		case *types.Pointer, *types.Map, *types.Chan:
+			rf = and(rf, "(< "+elem+" next__e0)")
+		case *types.Slice:
+			rf = and(rf, "(< (s-ref "+elem+") next__e0)")
+		}
+	}
 	if rf == "true" {
 		return
 	}
@@ -112,8 +126,7 @@ func (vc *VC) havocComp(s *State, comp string) {
 }
 
 func (vc *VC) havocAll(s *State) {
-	epochCounter++
-	s.epoch = epochCounter
+	s.epoch = nextEpoch()
 	s.comp = map[string]string{}
 }
 
@@ -138,8 +151,7 @@ func (vc *VC) mergeStates(states []*State, conds []string) *State {
 			}
 		}
 	} else {
-		epochCounter++
-		out.epoch = epochCounter
+		out.epoch = nextEpoch()
 		for k := range vc.comps {
 			names[k] = true
 		}
